@@ -50,7 +50,7 @@ class C14(Check):
     pid = "C14"
     level = "exploration"
     engine = "calsim"
-    rule = ("one evaluation = one scripted loss sequence x convergence precision (None, 0-12) x verbose on/off twin x folder on/off x "
+    rule = ("one evaluation = one scripted loss sequence (a quarter of them signed, through a user-defined read-off loss) x convergence precision (None, 0-12) x verbose on/off twin x folder on/off x "
             "1-3 calibrate(n) calls on a real Calibrator with 1-3 history-free samplers; compared with the reference stop model "
             "(batches run, rows, batch index per call), verbose twin bit-identical, restored checkpoint equal to the returned state; "
             "non-trivial = a call stopped early; distinct = distinct (precision, stop positions per call, folder, line-up sizes)")
